@@ -173,6 +173,11 @@ theorem J_call (cap : Nat) (f : Plan) (s : St) (c : Call) (hj : J s) : J (call c
     split
     · exact ⟨hm, hw⟩
     · exact ⟨hm, hw⟩
+  | removeLock =>
+    simp only [call]
+    split
+    · exact ⟨hm, hw⟩
+    · exact ⟨hm, hw⟩
 
 theorem J_run (cap : Nat) (F : Nat → Plan) (i : Nat) (s : St) (cs : List Call) (h : J s) :
     J (run cap F i s cs).1 :=
